@@ -253,24 +253,27 @@ theorem C01_depth_bound (p q : Array Pos) (len dm : Nat) (d : Dir) (fl : Bool)
 
 example : ∃ q dm, positionFinishOffsets #[{}, { chain := -1, atype := 1 }] 2 .ltr true = .ok (q, dm) := ⟨_, _, rfl⟩
 
-/- Full statement wanted by C01 for the second recursion of this core (FALSE of the current code, as in HarfBuzz:
-   `reverse_cursive_minor_offset` takes no `nesting_level`):
-   theorem C01_reverse_cursive_depth : reverseCursiveMinorOffset (fuelFor p) p i d np = .ok (q, dep) → dep ≤ 64 + 1
-   Proved instead: the depth is at most the number of pending links + 1 (so it terminates) … -/
-theorem C01_reverse_cursive_depth_partial (p q : Array Pos) (i np dep : Nat) (d : Dir)
-    (h : reverseCursiveMinorOffset (fuelFor p) p i d np = .ok (q, dep)) : dep ≤ nz p + 1 ∧ q.size = p.size := by
+/-- `reverse_cursive_minor_offset` no longer recurses: it is two loops over a heap work list.  The loops compute
+    exactly what the recursion computed, on EVERY input — cyclic chains, out-of-range links, foreign attach
+    types — including which panic is raised and the length of the walk (so every theorem above, proved about
+    the recursive formulation, is a theorem about the loops). -/
+theorem C01_reverse_cursive_loop_exact (fuel : Nat) (p : Array Pos) (i : Nat) (d : Dir) (np : Nat) :
+    reverseCursiveMinorOffset fuel p i d np = reverseCursiveRec fuel p i d np :=
+  reverseCursive_eq fuel p i d np
+
+/-- The work list never holds more entries than there are pending links (so the first loop terminates and the
+    heap use is linear in the buffer); stack use is constant.  Together with `C01_depth_bound` nothing in this
+    core nests deeper than 65 frames any more (was: `known_C01_reverse_cursive_unbounded`). -/
+theorem C01_reverse_cursive_worklist (p q : Array Pos) (i np dep : Nat) (d : Dir)
+    (h : reverseCursiveMinorOffset (fuelFor p) p i d np = .ok (q, dep)) :
+    dep ≤ nz p + 1 ∧ dep ≤ p.size + 1 ∧ q.size = p.size := by
+  rw [reverseCursive_eq] at h
   obtain ⟨h1, h2⟩ := reverseCursive_main d np _ _ _ _ _ h
-  exact ⟨h2, h1.1⟩
+  have := nz_le_size p
+  exact ⟨h2, by omega, h1.1⟩
 
 example : ∃ q dep, reverseCursiveMinorOffset (fuelFor #[{ chain := 1, atype := 2 }, {}]) #[{ chain := 1, atype := 2 }, {}] 0 .ltr 5
     = .ok (q, dep) := ⟨_, _, rfl⟩
-
-/-- … and the counter-theorem: for every `n` there is an `n`-glyph buffer (a run of forward cursive links, what a
-    RightToLeft-flagged cursive lookup leaves behind) on which re-attaching glyph 1 to glyph 0 — what a second
-    cursive lookup without that flag does — nests `n - 1` frames deep. -/
-theorem known_C01_reverse_cursive_unbounded (n : Nat) (hn : 2 ≤ n) (d : Dir) :
-    ∃ (p : Array Pos), p.size = n ∧ ∃ q, reverseCursiveMinorOffset (fuelFor p) p 1 d 0 = .ok (q, n - 1) :=
-  ⟨fwdChain n, by simp [fwdChain], fwdChain_reverse_depth n hn d⟩
 
 end RbModel.Gpos
 
